@@ -518,15 +518,19 @@ class Entry(object):
         persons = self.persons[role]
         return ' and '.join(str(person) for person in persons)
 
-    def _find_crossref_field(self, name, bib_data, visited=frozenset()):
+    def _find_crossref_entry(self, name, bib_data, visited):
+        """The cross-referenced entry to continue the lookup of ``name`` with."""
         if bib_data is None or 'crossref' not in self.fields:
             raise KeyError(name)
         crossref = self.fields['crossref']
         if crossref.lower() in visited:
             # circular cross-reference: no entry of the cycle defines the field
             raise KeyError(name)
-        referenced_entry = bib_data.entries[crossref]
-        return referenced_entry._find_field(name, bib_data, visited | {crossref.lower()})
+        return bib_data.entries[crossref], visited | {crossref.lower()}
+
+    def _find_crossref_field(self, name, bib_data, visited=frozenset()):
+        referenced_entry, visited = self._find_crossref_entry(name, bib_data, visited)
+        return referenced_entry._find_field(name, bib_data, visited)
 
     def _find_field(self, name, bib_data=None, visited=frozenset()):
         """
@@ -543,13 +547,19 @@ class Entry(object):
           cross-referenced entry and try to find its field with the given
           ``name``.
         """
-        try:
-            return self.fields[name]
-        except KeyError:
+        # a loop, not a recursion: a long chain of cross-references
+        # must not exhaust the interpreter stack
+        entry = self
+        while True:
             try:
-                return self._find_person_field(name)
+                return entry.fields[name]
             except KeyError:
-                return self._find_crossref_field(name, bib_data, visited)
+                pass
+            try:
+                return entry._find_person_field(name)
+            except KeyError:
+                pass
+            entry, visited = entry._find_crossref_entry(name, bib_data, visited)
 
     def to_string(self, bib_format, **kwargs):
         """
